@@ -6,7 +6,7 @@
 
 use serde_json::{Value, json};
 use std::collections::HashMap;
-use std::sync::Arc;
+use std::sync::{Arc, Mutex};
 use vrp_core::construction::heuristics::*;
 use vrp_core::models::problem::{Job, JobIdDimension, VehicleIdDimension};
 use vrp_core::models::LockOrder;
@@ -15,6 +15,7 @@ use vrp_core::prelude::*;
 use vrp_core::rosomaxa::evolution::TelemetryMode;
 use vrp_core::rosomaxa::prelude::*;
 use vrp_core::rosomaxa::utils::Parallelism;
+use vrp_core::solver::search::verif::JobRemovalTracker;
 use vrp_core::solver::search::*;
 use vrp_core::solver::{RefinementContext, TargetSearchOperator, create_elitism_population, verif_default_diversify_operators, verif_default_operators};
 use vrp_verif_harness::pragen::*;
@@ -33,9 +34,33 @@ fn gen_cases(rng: &mut Rng, tier: Tier) -> Vec<Value> {
             cfg.tags = cfg.tags || cfg.multi_jobs || cfg.alt_places;
             // one history in eight runs on long tours (the stochastic leg selection only samples from 16-32 legs on)
             let cfg = if i % 8 == 7 { GenCfg::long_tours() } else { cfg };
-            let sp = gen_problem(rng, &cfg);
+            let mut sp = gen_problem(rng, &cfg);
+            // one history in three runs under explicit objectives which keep per-solution aggregates (work balance,
+            // compact tours, soft tour order): their cached values must follow every step as well
+            if i % 3 == 2 {
+                sp.objectives = gen_objectives(rng, &sp);
+            }
             let ops: Vec<u64> = (0..steps).map(|_| rng.next() % 100_000).collect();
             json!({"k": "history", "sp": sp, "ops": ops, "relations": i % 3 == 1, "rseed": rng.next() % 1000})
+        })
+        .collect()
+}
+
+/// elementary-step traces: the real bookkeeping functions driven directly (removal tracker through hook H3, the
+/// insertion heuristic through its public `process` with an observing evaluator)
+fn gen_machine_cases(rng: &mut Rng, tier: Tier) -> Vec<Value> {
+    let n = if tier == Tier::Thorough { 3000 } else { 300 };
+    (0..n)
+        .map(|i| {
+            let mut cfg = GenCfg::basic();
+            cfg.multi_jobs = rng.chance(1, 2);
+            cfg.skills = rng.chance(1, 4);
+            cfg.multi_dim = rng.chance(1, 4);
+            cfg.tags = true;
+            cfg.jobs = (4, 12);
+            let sp = gen_problem(rng, &cfg);
+            let calls: Vec<u64> = (0..rng.usize(10, 40)).map(|_| rng.next() % 1_000_000).collect();
+            json!({"k": "machine", "sp": sp, "calls": calls, "relations": i % 2 == 0, "rseed": rng.next() % 1000})
         })
         .collect()
 }
@@ -162,7 +187,133 @@ fn sol_digest(ctx: &InsertionContext) -> Vec<(String, String)> {
     ctx.solution.state.verif_digest().into_iter().filter(|(k, _)| k != "TabuListSolutionStateKey").collect()
 }
 
+struct Observing {
+    inner: PositionInsertionEvaluator,
+    ids: Arc<Ids>,
+    evals: Arc<Mutex<Vec<Value>>>,
+}
+
+impl InsertionEvaluator for Observing {
+    fn evaluate_all(
+        &self,
+        insertion_ctx: &InsertionContext,
+        jobs: &[&Job],
+        routes: &[&RouteContext],
+        leg_selection: &LegSelection,
+        result_selector: &dyn ResultSelector,
+    ) -> InsertionResult {
+        // the state seen here is the state right after the previous applied result
+        let state = bookkeeping(&self.ids, insertion_ctx);
+        let result = self.inner.evaluate_all(insertion_ctx, jobs, routes, leg_selection, result_selector);
+        let what = match &result {
+            InsertionResult::Success(success) => json!({"success": [self.ids.id(&success.job), actor_id_of(success.actor.as_ref())]}),
+            InsertionResult::Failure(failure) => json!({"failure": failure.job.as_ref().map(|j| self.ids.id(j))}),
+        };
+        self.evals.lock().unwrap().push(json!({"state": state, "result": what}));
+        result
+    }
+}
+
+fn exec_machine(case: &Value) -> Value {
+    let mut sp: SProblem = serde_json::from_value(case["sp"].clone()).unwrap();
+    let calls: Vec<u64> = case["calls"].as_array().unwrap().iter().map(|x| x.as_u64().unwrap()).collect();
+    let with_relations = case["relations"].as_bool().unwrap_or(false);
+    let rseed = case["rseed"].as_u64().unwrap_or(0);
+    let result = isolated(1, move || -> Result<Value, String> {
+        if with_relations {
+            let problem = sp.read().map_err(|c| format!("generated problem is invalid: {c:?}"))?;
+            if let Ok((_, sol)) = solve_default(problem, quiet_env(), 20) {
+                sp.relations = derive_relations(&sp, &sol, rseed);
+            }
+        }
+        let problem = sp.read().map_err(|c| format!("generated problem is invalid: {c:?}"))?;
+        let env = Arc::new(Environment {
+            random: Arc::new(DefaultRandom::new_repeatable()),
+            quota: None,
+            parallelism: Parallelism::new(1, 1),
+            logger: Arc::new(|_: &str| {}),
+            is_experimental: false,
+        });
+        let ids = Arc::new(Ids::new(&problem));
+        let job_sizes: Vec<usize> = problem.jobs.all().iter().map(|j| match j { Job::Multi(m) => m.jobs.len(), Job::Single(_) => 1 }).collect();
+        let mut actors: Vec<String> = problem.fleet.actors.iter().map(|actor| actor_id_of(actor.as_ref())).collect();
+        actors.sort();
+        let mut ctx = InsertionContext::new(problem.clone(), env.clone());
+        let mut events = vec![json!({"ev": "init", "state": bookkeeping(&ids, &ctx)})];
+        let mut tracker: Option<JobRemovalTracker> = None;
+        let process = |ctx: InsertionContext, events: &mut Vec<Value>| -> InsertionContext {
+            let evals = Arc::new(Mutex::new(vec![]));
+            let heuristic = InsertionHeuristic::new(Box::new(Observing {
+                inner: PositionInsertionEvaluator::default(),
+                ids: ids.clone(),
+                evals: evals.clone(),
+            }));
+            let out = heuristic.process(
+                ctx,
+                &AllJobSelector::default(),
+                &AllRouteSelector::default(),
+                &LegSelection::Exhaustive,
+                &BestResultSelector::default(),
+            );
+            events.push(json!({"ev": "process", "evals": evals.lock().unwrap().clone(), "state": bookkeeping(&ids, &out)}));
+            out
+        };
+        // a first construction, then the scripted calls
+        ctx = process(ctx, &mut events);
+        for c in calls.iter() {
+            let kind = c % 10;
+            let pick = (c / 10) as usize;
+            match kind {
+                0 => {
+                    // fresh removal tracker with an exact budget (ranges of width zero), small ones included
+                    let acts = pick % 7;
+                    let routes = (pick / 7) % 4;
+                    let limits = RemovalLimits { removed_activities_range: acts..acts, affected_routes_range: routes..routes };
+                    tracker = Some(JobRemovalTracker::new(&limits, env.random.as_ref()));
+                    events.push(json!({"ev": "new_tracker", "acts": acts, "routes": routes}));
+                }
+                1..=4 => {
+                    if let (Some(tr), false) = (tracker.as_mut(), ctx.solution.routes.is_empty()) {
+                        let r = pick % ctx.solution.routes.len();
+                        let all = problem.jobs.all();
+                        // mostly a job of that route, sometimes any job of the problem (absent, locked, unassigned ...)
+                        let in_route: Vec<Job> = ctx.solution.routes[r].route().tour.jobs().cloned().collect();
+                        let job = if (pick / 64) % 4 != 0 && !in_route.is_empty() { in_route[(pick / 256) % in_route.len()].clone() } else { all[(pick / 256) % all.len()].clone() };
+                        let actor = actor_id(ctx.solution.routes[r].route());
+                        let result = tr.try_remove_job(&mut ctx.solution, r, &job);
+                        events.push(json!({"ev": "remove_job", "actor": actor, "job": ids.id(&job), "result": result, "limit": tr.is_limit(), "state": bookkeeping(&ids, &ctx)}));
+                    }
+                }
+                5 | 6 => {
+                    if let (Some(tr), false) = (tracker.as_mut(), ctx.solution.routes.is_empty()) {
+                        let r = pick % ctx.solution.routes.len();
+                        let actor = actor_id(ctx.solution.routes[r].route());
+                        let result = tr.try_remove_route(&mut ctx.solution, r, env.random.as_ref());
+                        events.push(json!({"ev": "remove_route", "actor": actor, "result": result, "limit": tr.is_limit(), "state": bookkeeping(&ids, &ctx)}));
+                    }
+                }
+                7 => {
+                    ctx.restore();
+                    events.push(json!({"ev": "restore", "state": bookkeeping(&ids, &ctx)}));
+                }
+                _ => {
+                    ctx = process(ctx, &mut events);
+                }
+            }
+        }
+        Ok(json!({"jobs": problem.jobs.size(), "job_sizes": job_sizes, "actors": actors, "events": events}))
+    });
+    match result {
+        Err(_) => json!({"panic": format!("machine trace panicked: {}", last_panic())}),
+        Ok(Err(e)) => json!({"error": e}),
+        Ok(Ok(v)) => v,
+    }
+}
+
 fn exec(case: &Value) -> Value {
+    if case["k"] == "machine" {
+        return exec_machine(case);
+    }
     let mut sp: SProblem = serde_json::from_value(case["sp"].clone()).unwrap();
     let ops_idx: Vec<u64> = case["ops"].as_array().unwrap().iter().map(|x| x.as_u64().unwrap()).collect();
     let with_relations = case["relations"].as_bool().unwrap_or(false);
@@ -353,5 +504,12 @@ fn exec(case: &Value) -> Value {
 }
 
 fn main() {
-    run_main(gen_cases, exec);
+    run_main(
+        |rng, tier| {
+            let mut cases = gen_cases(rng, tier);
+            cases.extend(gen_machine_cases(rng, tier));
+            cases
+        },
+        exec,
+    );
 }
